@@ -41,6 +41,9 @@ type c10Case struct {
 	Segs       []int           `json:"segs"`
 	DefSeg     int             `json:"default_seg"`
 	LogLevel   string          `json:"log_level"`
+	// C11 only: the write with this 1-based index (and every later one) fails at the transport --
+	// the link dies just when a credential is being sent; only the log oracle applies then
+	WriteErr int `json:"write_err,omitempty"`
 }
 
 var c10Secrets = []string{"p4ssw0rd", "s3cr3t!", "%s%d%v", "a.b*c+?", "redacted", "pa$$(w)[o]rd", "x y z", "päss", "^caret$", "100%!"}
@@ -59,6 +62,9 @@ func genC10(prop string, r *sim.Rng, i int) *c10Case {
 		for k := 0; k < m; k++ {
 			c.Segs = append(c.Segs, 1+r.Intn(12))
 		}
+	}
+	if prop == "C11" && r.Chance(1, 4) {
+		c.WriteErr = 1 + r.Intn(5)
 	}
 	if prop == "C11" && i%3 == 2 {
 		c.Kind = "escalate"
@@ -201,6 +207,10 @@ func runC10Case(id string, c *c10Case) {
 	dev := &sim.LoginDevice{Turns: c.Turns}
 	tr := sim.NewTransport(dev)
 	tr.Segs, tr.DefaultSeg = c.Segs, c.DefSeg
+	if c.WriteErr > 0 {
+		tr.SetWriteErr(c.WriteErr - 1)
+		cs.Kind += "/write-error"
+	}
 	at := &sim.AuthTransport{Transport: tr, SSH: &transport.SSHArgs{PrivateKeyPassPhrase: c.Passphrase}}
 	if c.Kind == "ssh" {
 		at.Kind = transport.InChannelAuthSSH
@@ -374,6 +384,11 @@ func runC10Case(id string, c *c10Case) {
 			cs.Oracle = fmt.Sprintf("first read after open is %q: the prompt read during login was lost", firstN)
 			cs.Sig = "C10:login-bytes-lost"
 		}
+	}
+	if c.WriteErr > 0 {
+		// failing writes are outside the model (the operation language has no failing write) and outside
+		// C10's dialogue oracle: only "no secret in any log" is decided on these cases
+		cs.Line, cs.Oracle, cs.Sig = "", "", ""
 	}
 	// ---- C11: no credential in any log line or in the channel log
 	if m := sink.containsAny(c.Password, c.Passphrase); m != "" && cs.Oracle == "" {
